@@ -4,8 +4,10 @@ namespace VncModel.Life
 
 /-- the invariant only reads `conns`, `list`, `screens` and the counters -/
 theorem inv_of_same {v : Variant} {w w' : World} (h : Inv v w) (hc : w'.conns = w.conns)
-    (hl : w'.list = w.list) (hs : w'.screens = w.screens) (hk : Counters v w') : Inv v w' := by
-  refine ⟨by rw [hl]; exact h.nodup, by rw [hl, hc]; exact h.bound, ?_, ?_, hk, ?_, ?_, by rw [hs]; exact h.main⟩
+    (hl : w'.list = w.list) (hs : w'.screens = w.screens) (hk : Counters v w')
+    (hp : w'.ptrOwner = w.ptrOwner := by rfl) : Inv v w' := by
+  refine ⟨by rw [hl]; exact h.nodup, by rw [hl, hc]; exact h.bound, ?_, ?_, hk, ?_, ?_, by rw [hs]; exact h.main,
+    by rw [hp, hl]; exact h.ptr⟩
   · intro i c; rw [hc, hl]; exact h.live i c
   · intro i c; rw [hc, hl]; exact h.dead i c
   · intro s; rw [hs]; intro hm; simp only [owners, hc]; exact h.refs s hm
@@ -67,8 +69,8 @@ theorem getElem?_append_new {α} (l : List α) (a : α) (j : Nat) (c : α)
     rw [this] at h; simp at h
     exact Or.inr ⟨by omega, h.symm⟩
 
-theorem owns_other_false (s : Screen) (c : Conn) (hc : c.scr = (64, 48))
-    (hd : ¬ (s.w = 64 ∧ s.h = 48)) : owns (s.w, s.h) c = false := by
+theorem owns_other_false (s : Screen) (c : Conn) (hc : c.scr = (128, 96))
+    (hd : ¬ (s.w = 128 ∧ s.h = 96)) : owns (s.w, s.h) c = false := by
   simp only [owns, Bool.and_eq_false_iff]
   right
   rw [hc]
@@ -77,7 +79,7 @@ theorem owns_other_false (s : Screen) (c : Conn) (hc : c.scr = (64, 48))
 
 theorem inv_spawn {v : Variant} {w : World} (h : Inv v w) : LiveOpen v (spawn w) w.conns.length := by
   have hnew : w.conns.length ∉ w.list := fun hm => Nat.lt_irrefl _ (h.bound _ hm)
-  refine ⟨⟨?_, ?_, ?_, ?_, h.counters, ?_, ?_, ?_⟩, by simp [spawn], ?_⟩
+  refine ⟨⟨?_, ?_, ?_, ?_, h.counters, ?_, ?_, ?_, ?_⟩, by simp [spawn], ?_⟩
   · simp only [spawn]; exact List.nodup_cons.mpr ⟨hnew, h.nodup⟩
   · intro j hj
     simp only [spawn, List.mem_cons, List.length_append, List.length_singleton] at hj ⊢
@@ -103,12 +105,12 @@ theorem inv_spawn {v : Variant} {w : World} (h : Inv v w) : LiveOpen v (spawn w)
     obtain ⟨s, hs, rfl⟩ := (mem_incRef _ _ _).mp hs'
     have hr := h.refs s hs
     simp only [owners, spawn, List.countP_append, List.countP_singleton]
-    by_cases hm : (s.w == (64, 48).1 && s.h == (64, 48).2) = true
-    · have hd : s.w = 64 ∧ s.h = 48 := by simpa using hm
+    by_cases hm : (s.w == (128, 96).1 && s.h == (128, 96).2) = true
+    · have hd : s.w = 128 ∧ s.h = 96 := by simpa using hm
       simp only [hm, if_true]
       simp [owns, hd.1, hd.2, hr, owners]
     · simp only [hm]
-      have hd : ¬ (s.w = 64 ∧ s.h = 48) := by simpa using hm
+      have hd : ¬ (s.w = 128 ∧ s.h = 96) := by simpa using hm
       have := owns_other_false s ({} : Conn) rfl hd
       simp [this, hr, owners]
   · intro j c hc href
@@ -118,6 +120,7 @@ theorem inv_spawn {v : Variant} {w : World} (h : Inv v w) : LiveOpen v (spawn w)
     · exact h.scr j c hold href
     · exact h.main
   · simp only [spawn]; rw [hasScreen_incRef]; exact h.main
+  · intro j hj; simp only [spawn] at hj ⊢; exact List.mem_cons_of_mem _ (h.ptr j hj)
   · rw [isOpen_iff]
     exact ⟨{}, by simp [spawn], rfl⟩
 
@@ -125,7 +128,7 @@ theorem inv_nbFail {v : Variant} {w : World} (h : Inv v w) : Inv v (nbFail v w) 
   unfold nbFail
   apply inv_emit; apply inv_emit
   have hnew : w.conns.length ∉ w.list := fun hm => Nat.lt_irrefl _ (h.bound _ hm)
-  refine ⟨h.nodup, ?_, ?_, ?_, ?_, ?_, ?_, ?_⟩
+  refine ⟨h.nodup, ?_, ?_, ?_, ?_, ?_, ?_, ?_, h.ptr⟩
   · intro j hj; have := h.bound j hj; simp; omega
   · intro j c hc hj
     simp only at hc hj
@@ -140,8 +143,8 @@ theorem inv_nbFail {v : Variant} {w : World} (h : Inv v w) : Inv v (nbFail v w) 
       cases hv : v.nbFree
       · right; simp
       · left; simp [TornDown]
-  · obtain ⟨k1, k2, k3, k4, k5, k6⟩ := h.counters
-    refine ⟨?_, k2, k3, k4, k5, k6⟩
+  · obtain ⟨k1, k2, k3, k4, k5, k6, k7⟩ := h.counters
+    refine ⟨?_, k2, k3, k4, k5, k6, k7⟩
     intro hv; simp [hv, k1 hv]
   · intro s' hs'
     simp only at hs'
@@ -150,12 +153,12 @@ theorem inv_nbFail {v : Variant} {w : World} (h : Inv v w) : Inv v (nbFail v w) 
       obtain ⟨s, hs, rfl⟩ := (mem_incRef _ _ _).mp hs'
       have hr := h.refs s hs
       simp only [owners, List.countP_append, List.countP_singleton, hv]
-      by_cases hm : (s.w == (64, 48).1 && s.h == (64, 48).2) = true
-      · have hd : s.w = 64 ∧ s.h = 48 := by simpa using hm
+      by_cases hm : (s.w == (128, 96).1 && s.h == (128, 96).2) = true
+      · have hd : s.w = 128 ∧ s.h = 96 := by simpa using hm
         simp only [hm, if_true]
         simp [owns, hd.1, hd.2, hr, owners]
       · simp only [hm]
-        have hd : ¬ (s.w = 64 ∧ s.h = 48) := by simpa using hm
+        have hd : ¬ (s.w = 128 ∧ s.h = 96) := by simpa using hm
         have := owns_other_false s ({ sockOpen := false, closeCalls := 1 } : Conn) rfl hd
         simp [this, hr, owners]
     · simp only [hv, if_true] at hs'
@@ -163,7 +166,7 @@ theorem inv_nbFail {v : Variant} {w : World} (h : Inv v w) : Inv v (nbFail v w) 
       simp [owners, List.countP_append, owns, hv, hr]
   · intro j c hc href
     simp only at hc ⊢
-    have hsc : ∀ e, hasScreen (if v.nbFree = true then w.screens else incRef w.screens (64, 48)) e
+    have hsc : ∀ e, hasScreen (if v.nbFree = true then w.screens else incRef w.screens (128, 96)) e
         = hasScreen w.screens e := by
       intro e; split
       · rfl
@@ -184,8 +187,8 @@ theorem liveOpen_wsStage {v : Variant} {w : World} {i : Nat} (h : LiveOpen v w i
   · have h1 := liveOpen_modConn h (fun c => { c with wspath := true }) (by intro c; simp)
     obtain ⟨hinv, hi, ho⟩ := h1
     refine ⟨inv_of_same hinv rfl rfl rfl ?_, hi, ho⟩
-    obtain ⟨k1, k2, k3, k4, k5, k6⟩ := hinv.counters
-    refine ⟨k1, k2, k3, ?_, k5, k6⟩
+    obtain ⟨k1, k2, k3, k4, k5, k6, k7⟩ := hinv.counters
+    refine ⟨k1, k2, k3, ?_, k5, k6, k7⟩
     intro hv
     have := k4 hv
     simp at this
@@ -215,7 +218,7 @@ theorem inv_acceptHook {v : Variant} {w : World} {i : Nat} (h : LiveOpen v w i) 
   unfold acceptHook
   apply inv_hookStage
   split
-  · exact liveOpen_modConn h _ (by intro c; simp)
+  · exact liveOpen_emit (liveOpen_modConn h _ (by intro c; simp)) _
   · exact h
 
 theorem inv_acceptVersion {v : Variant} {w : World} {i : Nat} (h : LiveOpen v w i) (hk : Hook)
